@@ -99,5 +99,20 @@ def main():
     print("ALL EXPECTATIONS MET" if ok_all else "SOME EXPECTATIONS NOT MET")
     return 0 if ok_all else 1
 
+def with_evidence_kept(f):
+    """The checks rewrite evidence/<id>.json on every run; what they write while /repo is mutated
+    must not stay behind (evidence describes the unchanged tree)."""
+    import shutil, tempfile
+    ev = os.path.join(ROOT, "evidence")
+    keep = tempfile.mkdtemp(prefix="evidence-keep-")
+    shutil.copytree(ev, os.path.join(keep, "evidence"))
+    try:
+        return f()
+    finally:
+        shutil.rmtree(ev, ignore_errors=True)
+        shutil.copytree(os.path.join(keep, "evidence"), ev)
+        shutil.rmtree(keep, ignore_errors=True)
+
+
 if __name__ == "__main__":
-    sys.exit(main())
+    sys.exit(with_evidence_kept(main))
